@@ -143,6 +143,8 @@ def gen(rng, scenario, tier):
     if scenario == "svc":   # a real linear SVC and MD3's default margin function; enough labelled rows for both classes in every fold
         cfg.update(clf="svc", C=rng.choice([0.1, 1.0, 10.0]), oracle_len=rng.choice([None, 8, 12, 16]))
         cfg["k"] = rng.randint(2, 4)
+    cfg["refit"] = rng.random() < 0.4
+    cfg["int_cols"] = rng.random() < 0.2
     ref = [_row(rng, 0.0, 0.0) for _ in range(N)]
     ev = []
     shift, flip = 0.0, 0.0
@@ -212,6 +214,20 @@ class Harness:
             accs.append(float(np.mean(c.predict(Xdf.iloc[te]) == y[te])))
         return {"len": len(df), "md": float(np.mean(mds)), "md_std": float(np.std(mds)), "acc": float(np.mean(accs)), "acc_std": float(np.std(accs))}
 
+    def check_stored(self, det, df, where):
+        """the reference the detector exposes (reference_batch_features / reference_batch_target) holds the rows it was given -
+        whatever the caller has done to its own frame since"""
+        f, t = getattr(det, "reference_batch_features", None), getattr(det, "reference_batch_target", None)
+        if f is None or t is None:
+            return
+        ok = np.array_equal(np.asarray(f, dtype=float), df[["a", "b"]].to_numpy(dtype=float)) and \
+            np.array_equal(np.asarray(t, dtype=float).ravel(), df["y"].to_numpy(dtype=float))
+        if not ok:
+            self.ctx.violation("reference", "C19:stored_reference",
+                               f"{where}: reference_batch_features / reference_batch_target do not hold the {len(df)} rows the detector was given "
+                               f"(first stored row {np.asarray(f, dtype=float)[0].tolist()} / {np.asarray(t, dtype=float).ravel()[:1].tolist()}, given {df.iloc[0].tolist()})")
+            raise EndRun()
+
     def check_ref(self, det, st, where):
         rd = det.reference_distribution
         for key in st:
@@ -267,13 +283,36 @@ def _run(case, ctx, lifecycle=False):
     with rebind(h.mm, KFold=h.kfold) as missing:
         if missing:
             ctx.note("kfold_seam_missing")
+        # ---- how frames reach the detector: optionally with integer column labels (target label 0), optionally built over
+        # ---- caller-owned arrays (copy=False) that the caller overwrites as soon as the call has returned
+        names = {"a": 1, "b": 2, "y": 0} if cfg.get("int_cols") else None
+        target = 0 if names else "y"
+        owned = []
+
+        def deliver(df):
+            if names:
+                df = df.rename(columns=names)
+                if list(df.columns)[-1] == 0:
+                    df = df[[0] + list(df.columns)[:-1]]      # the class label (column label 0) comes first, as in a default-labelled frame
+            if case.get("scribble"):
+                arr = df.to_numpy(dtype=float).copy()
+                df = pd.DataFrame(arr, columns=list(df.columns), index=df.index, copy=False)
+                owned.append(arr)
+            return df
+
+        def caller_reuses_buffers():
+            for arr in owned:
+                arr[...] = 9e5
+                ctx.fault("scribble_after_call")
+            del owned[:]
+
         ref = _frame(case["ref"])
         if case.get("shuffled_index"):
             idx = list(range(len(ref)))
             idx = idx[len(idx) // 3:] + idx[: len(idx) // 3][::-1]     # a permuted integer index (as after df.sample(frac=1))
             ref.index = idx
         try:
-            clf = make_clf(cfg).fit(ref[["a", "b"]], ref["y"])
+            clf = make_clf(cfg).fit(ref[["a", "b"]] if not names else ref[["a", "b"]].to_numpy(), ref["y"].to_numpy())
         except ValueError:
             raise EndRun()
         if cfg.get("clf") == "svc":     # the class's documented default: an SVC and its own margin function
@@ -282,16 +321,18 @@ def _run(case, ctx, lifecycle=False):
             det = ctx.call("C19:ctor", MD3, clf, margin_calculation_function=margin_fn, sensitivity=cfg["sensitivity"], k=cfg["k"],
                            oracle_data_length_required=cfg["oracle_len"])
         try:
-            det.set_reference(ref, target_name="y")
+            det.set_reference(deliver(ref), target_name=target)
         except Exception as e:  # noqa: BLE001
             if _sklearn_domain(e):
                 ctx.note("reference_outside_classifier_domain")
                 raise EndRun()
-            ctx.call("C19:set_reference", det.set_reference, ref, target_name="y")
+            ctx.call("C19:set_reference", det.set_reference, deliver(ref), target_name=target)
+        caller_reuses_buffers()
         if missing:
             raise EndRun()
         st = h.refstats(ref)
         h.check_ref(det, st, "initial reference")
+        h.check_stored(det, ref, "initial reference")
         N = len(ref)
         Lreq = cfg["oracle_len"] if cfg["oracle_len"] is not None else N
         md, ff = st["md"], (N - 1) / N
@@ -302,19 +343,24 @@ def _run(case, ctx, lifecycle=False):
         for t, (kind, rows) in enumerate(case["events"]):
             ctx.step = t
             det = ctx.maybe_fork(det)
+            clf = det.classifier          # (after a snapshot / restore the user's classifier is the restored one)
             is_update = kind.startswith("update")
             snap = _snapshot(det)
             pstate = f"waiting({len(odata)})" if waiting else "idle"
             if is_update:
                 X = _frame(rows)[["a", "b"]]
+                Xd = deliver(X)
                 legal = (not waiting) and len(rows) == 1
-                call = lambda: det.update(X)  # noqa: E731
+                call = lambda: det.update(Xd)  # noqa: E731
             else:
-                lab = _frame(rows, kind)
+                lab = deliver(_frame(rows, kind))
                 legal = waiting and kind in ("label", "label_perm")
                 call = lambda: det.give_oracle_label(lab)  # noqa: E731
             try:
-                call()
+                try:
+                    call()
+                finally:
+                    caller_reuses_buffers()
                 raised = None
             except ValueError as e:
                 raised = "ValueError"
@@ -380,6 +426,15 @@ def _run(case, ctx, lifecycle=False):
                     md, ff = st["md"], (N - 1) / N
                     waiting, odata = False, []
                     h.check_ref(det, st, f"move {t}: reference adopted from {N} labelled samples")
+                    h.check_stored(det, od, f"move {t}: reference adopted from {N} labelled samples")
+                    if cfg.get("refit"):
+                        # the user's reaction to a completed round: the SAME classifier object is refitted in place on the
+                        # labelled samples; from now on "the classifier's margin" is the refitted one's
+                        try:
+                            clf.fit(od[["a", "b"]] if not names else od[["a", "b"]].to_numpy(), od["y"].to_numpy())
+                            ctx.fault("classifier_refitted_in_place")
+                        except ValueError:
+                            pass
             got = (det.drift_state, det.waiting_for_oracle)
             if got != (state, waiting):
                 if margin <= 1e-12:
